@@ -8,12 +8,12 @@ import (
 
 // Gen produces type definitions and values. All randomness comes from r.
 type Gen struct {
-	r     *RNG
-	proto bool // ProtoCompatibleArrays is set on the instance the type is for
+	r            *RNG
+	proto        bool // ProtoCompatibleArrays is set on the instance the type is for
 	noProtoTag   bool // do not attach the proto tag option
 	finiteFloats bool // no NaN / Inf values
 	noNarrowFlat bool // the flat option only on int / int64
-	stats map[string]int
+	stats        map[string]int
 }
 
 func (g *Gen) count(k string) { g.stats[k]++ }
